@@ -7,13 +7,20 @@ data set has an active CMT column:
     ($MODEL order, or the fixed order of the library ADVAN), the compartment the in-memory model doses into;
   * every observation record addresses the central compartment of the in-memory model;
   * no record and no existing column other than CMT changes (a RATE column may be added).
-Bound: 3 start models (bolus ADVAN1, oral ADVAN2, oral ADVAN4 with a peripheral compartment), every
-sequence of <=1 (quick) / <=2 (thorough) of the structural transformations of contracts/b_nm.py."""
+  * the RATE data item gives every dose record the kind of dose the in-memory model has and is 0 elsewhere;
+  * $PK of the generated code assigns the reserved parameters ALAGn, Fn, Dn, Rn, Sn that the compartments of the
+    in-memory model imply, with n in the numbering of the generated code.
+Bound: 3 start models (bolus ADVAN1, oral ADVAN2, oral ADVAN4 with a peripheral compartment), then 2 more (oral
+ADVAN2 whose data set also has a RATE column that is 0 on all records, oral ADVAN2 that already has ALAG1 and F1), every sequence of <=1 (quick) / <=2 (thorough) of the structural transformations of
+contracts/b_nm.py."""
 import os
 import re
 import warnings
 
 FID = 'src/pharmpy/model/external/nonmem/update.py:update_cmt'
+FID_INFUSION = 'src/pharmpy/model/external/nonmem/update.py:update_infusion'
+RATE_CLAUSE = ('the RATE data item gives every dose record the kind of dose the model has (none or 0: bolus, -2: '
+               'modelled duration, -1: modelled rate, >0: rate in the data) and is 0 on the other records')
 NPROC = 16
 
 HEAD = """$PROBLEM cmt column
@@ -38,6 +45,13 @@ STARTS = {
                     "KA = THETA(3)\nQ = THETA(4)\nV3 = THETA(5)\nS2 = V2\n"
                     + TAIL % '$THETA (0,2) ; POP_KA\n$THETA (0,3) ; POP_Q\n$THETA (0,20) ; POP_V3\n', 1, 2),
 }
+# start models added later (appended, so that the enumeration order of the first three is kept)
+HEAD_RATE = HEAD.replace('AMT CMT', 'AMT RATE CMT')
+STARTS.update({
+    'oral ADVAN2 RATE0': (STARTS['oral ADVAN2'][0].replace(HEAD, HEAD_RATE), 1, 2),
+    'oral ADVAN2 ALAG1 F1': (STARTS['oral ADVAN2'][0].replace('S2 = V\n', 'S2 = V\nALAG1 = THETA(4)\nF1 = THETA(5)\n')
+                             .replace('$OMEGA', '$THETA (0,0.5) ; POP_ALAG\n$THETA (0,0.8,1) ; POP_F\n$OMEGA', 1), 1, 2),
+})
 # fixed compartment order of the library routines (NONMEM Users Guide VI): number = position + 1
 LIBRARY = {'ADVAN1': 1, 'ADVAN2': 2, 'ADVAN3': 2, 'ADVAN4': 3, 'ADVAN11': 3, 'ADVAN12': 4}
 DEPOT_FIRST = ('ADVAN2', 'ADVAN4', 'ADVAN12')
@@ -55,6 +69,8 @@ def _start(name):
         'CMT': [dose_cmt, obs_cmt, obs_cmt, obs_cmt, dose_cmt, obs_cmt, obs_cmt, dose_cmt, obs_cmt],
         'DV': [0.0, 5.0, 3.0, 1.0, 0.0, 6.0, 2.0, 0.0, 1.5],
     })
+    if ' RATE ' in code.split('$DATA')[0]:
+        df.insert(3, 'RATE', 0)
     model = read_model_from_string(code)
     return model.replace(dataset=df).update_source()
 
@@ -105,18 +121,38 @@ def _check(job):
         odes = model.statements.ode_system
         if odes is None or 'CMT' not in df.columns:
             return (False, [])
+        # RATE item and reserved parameters (clauses added later; they do not depend on the CMT numbering)
+        from contracts.b_nm import _RT_CLAUSE, _rate_diffs, _reserved_diffs
+
+        more = []
+        for what, detail in _rate_diffs(model, df, model.datainfo)[:1]:
+            more.append((FID_INFUSION, RATE_CLAUSE, f'{tag}: {detail}'))
+        seen = set()
+        for what, detail in _reserved_diffs(model, model.code):
+            if what not in seen:
+                seen.add(what)
+                more.append((_RT_CLAUSE[what][0], _RT_CLAUSE[what][1], f'{tag}: {detail}'))
         num = _numbering(model)
         if num is None:
-            return (False, [])
+            return (bool(more), more)
         dosing = odes.dosing_compartments[0].name
         central = odes.central_compartment.name
         # NOTE zero-order absorption adds a RATE column: new columns are allowed, existing ones must be kept
         other = [c for c in df0.columns if c != 'CMT']
-        if any(c not in df.columns for c in df0.columns) or len(df) != len(df0) \
+        if 'RATE' in df0.columns:
+            # a start model with a RATE column: the transformation may rewrite it, or drop it when it is all 0
+            other = [c for c in other if c != 'RATE']
+            if any(c not in df.columns for c in other + ['CMT']) or len(df) != len(df0) \
+                    or not df[other].reset_index(drop=True).equals(df0[other].reset_index(drop=True)):
+                fails.append((FID, 'records and the existing columns other than CMT and RATE are unchanged',
+                              f'{tag}: columns {list(df0.columns)} -> {list(df.columns)}, {len(df0)} -> {len(df)} records'))
+                other = None
+        elif any(c not in df.columns for c in df0.columns) or len(df) != len(df0) \
                 or not df[other].reset_index(drop=True).equals(df0[other].reset_index(drop=True)):
             fails.append((FID, 'records and the existing columns other than CMT are unchanged',
                           f'{tag}: columns {list(df0.columns)} -> {list(df.columns)}, {len(df0)} -> {len(df)} records'))
-        else:
+            other = None
+        if other is not None:
             dose_rows = df['AMT'] > 0
             got_dose = sorted(set(int(v) for v in df.loc[dose_rows, 'CMT']))
             got_obs = sorted(set(int(v) for v in df.loc[~dose_rows, 'CMT']))
@@ -130,6 +166,7 @@ def _check(job):
                               'generated code',
                               f'{tag}: central compartment {central} = compartment {num[central]}, observation '
                               f'records have CMT {got_obs}'))
+        fails += more
     except Exception as exc:
         fails.append((FID, 'no internal error while checking the rewritten data set', f'{tag}: {type(exc).__name__}: {exc}'))
     return (True, fails)
@@ -169,7 +206,8 @@ def bounded_cmt_columns(tier='quick'):
         f['also'] = also[key][:300]  # every failing case of the clause (see tools/BOUNDED_GUIDE.md, `also`)
     return {
         'cases': len(jobs), 'nontrivial': nontrivial,
-        'bound': f'{len(STARTS)} start models with an active CMT column (bolus ADVAN1, oral ADVAN2, oral ADVAN4) x '
+        'bound': f'{len(STARTS)} start models with an active CMT column (bolus ADVAN1, oral ADVAN2, oral ADVAN4; oral '
+                 f'ADVAN2 with a RATE column that is 0 on all records; oral ADVAN2 with ALAG1 and F1) x '
                  f'sequences of <={2 if tier == "thorough" else 1} structural transformations of contracts/b_nm.py',
         'samples': [str(jobs[1]), str(jobs[len(jobs) // 2])],
         'fails': sorted(fails.values(), key=lambda f: (f['fid'], f['clause'])),
